@@ -125,6 +125,9 @@ def oracle(lonv, latv, c):
         bad.append(('same-point', f'unit vector of the raw input and of the stored pair differ by {d:.3g}'))
     if not bad:
         try:
+            dx = vdist(tuple(c.xyz), unit(lo, la))
+            if not dx <= 1e-12:
+                bad.append(('xyz', f'Coordinate.xyz differs from (cos lat cos lon, cos lat sin lon, sin lat) by {dx:.3g}'))
             back = Coordinate._from_xyz(c.xyz)
             d2 = vdist(unit(back.longitude, back.latitude), unit(lo, la))
             if not d2 <= 1e-9:
